@@ -87,6 +87,201 @@ func mentions(n ast.Node, name string) bool {
 	return found
 }
 
+// straightLine: an assignment, declaration or call statement without a function literal — control cannot leave
+// the enclosing clause from inside it
+func straightLine(st ast.Stmt) bool {
+	switch st.(type) {
+	case *ast.AssignStmt, *ast.DeclStmt, *ast.ExprStmt:
+	default:
+		return false
+	}
+	ok := true
+	ast.Inspect(st, func(x ast.Node) bool {
+		if _, is := x.(*ast.FuncLit); is {
+			ok = false
+		}
+		return ok
+	})
+	return ok
+}
+
+// leaves: does the statement contain anything that can take control out of the enclosing case clause other than by
+// falling off its end — return, goto, continue, a labelled break, or an unlabelled break that is not inside a
+// switch/select/for of its own (depth 0 = directly in the clause)
+func leaves(st ast.Stmt) bool {
+	found := false
+	var walk func(n ast.Node, depth int)
+	walk = func(n ast.Node, depth int) {
+		if n == nil || found {
+			return
+		}
+		switch x := n.(type) {
+		case *ast.ReturnStmt:
+			found = true
+			return
+		case *ast.BranchStmt:
+			if x.Tok != token.BREAK || x.Label != nil || depth == 0 {
+				found = true
+			}
+			return
+		case *ast.FuncLit:
+			return
+		}
+		d := depth
+		switch n.(type) {
+		case *ast.SwitchStmt, *ast.TypeSwitchStmt, *ast.SelectStmt, *ast.ForStmt, *ast.RangeStmt:
+			d++
+		}
+		ast.Inspect(n, func(c ast.Node) bool {
+			if c == n {
+				return true
+			}
+			if c != nil {
+				walk(c, d)
+			}
+			return false
+		})
+	}
+	walk(st, 0)
+	return found
+}
+
+func mentionsReason(n ast.Node) bool {
+	found := false
+	ast.Inspect(n, func(x ast.Node) bool {
+		switch y := x.(type) {
+		case *ast.SelectorExpr:
+			if y.Sel.Name == "GetReason" || y.Sel.Name == "Reason" {
+				found = true
+			}
+		case *ast.Ident:
+			if strings.HasPrefix(y.Name, "REASON_") || strings.Contains(strings.ToLower(y.Name), "reason") {
+				found = true
+			}
+		case *ast.BasicLit:
+			if strings.Contains(y.Value, "REASON_") {
+				found = true
+			}
+		}
+		return !found
+	})
+	return found
+}
+
+// statusClauseShape looks at the body of `case taskop.TaskStatusMessage:` in handleMessage.
+//
+// reasonBlind: the `switch mesosState` is a statement of the clause body itself; everything before it is straight-line
+// code (so it is reached for EVERY status update); it has no init statement, and inside the case clauses that call
+// updateTaskState no `if` condition, case expression or switch tag mentions the update's reason: which state literal a
+// terminal Mesos state is turned into does not depend on why Mesos sent the update (direct, or the answer to a
+// reconciliation request).
+//
+// forRoster: the call of updateTaskStatus is a statement of the clause body (plain or `go`), or sits in the else branch
+// (no else-if) of an `if` of the clause body whose condition is a conjunction with the conjunct `m.GetTask(…) == nil`
+// — so the branch is taken whenever the task IS in the roster —, and everything before it in the clause body is
+// straight-line code or a statement that cannot leave the clause (no return/goto/continue/labelled break/break of the
+// clause itself): every update about a roster task reaches updateTaskStatus, whatever its reason.
+func statusClauseShape(cc *ast.CaseClause) (reasonBlind, forRoster bool) {
+	for i, st := range cc.Body {
+		sw, ok := st.(*ast.SwitchStmt)
+		if !ok || selName(sw.Tag) != "mesosState" {
+			continue
+		}
+		reasonBlind = sw.Init == nil
+		for _, b := range cc.Body[:i] {
+			if !straightLine(b) {
+				reasonBlind = false
+			}
+		}
+		for _, c := range sw.Body.List {
+			c2 := c.(*ast.CaseClause)
+			if len(callsNamed(c2, "updateTaskState")) == 0 {
+				continue
+			}
+			for _, e := range c2.List {
+				if mentionsReason(e) {
+					reasonBlind = false
+				}
+			}
+			ast.Inspect(c2, func(y ast.Node) bool {
+				switch z := y.(type) {
+				case *ast.IfStmt:
+					if mentionsReason(z.Cond) || (z.Init != nil && mentionsReason(z.Init)) {
+						reasonBlind = false
+					}
+				case *ast.SwitchStmt:
+					if z.Tag != nil && mentionsReason(z.Tag) {
+						reasonBlind = false
+					}
+				}
+				return true
+			})
+		}
+		break
+	}
+	isStatusCall := func(st ast.Stmt) bool {
+		switch x := st.(type) {
+		case *ast.GoStmt:
+			return selName(x.Call.Fun) == "updateTaskStatus"
+		case *ast.ExprStmt:
+			c, ok := x.X.(*ast.CallExpr)
+			return ok && selName(c.Fun) == "updateTaskStatus"
+		}
+		return false
+	}
+	var conjuncts func(e ast.Expr) []ast.Expr
+	conjuncts = func(e ast.Expr) []ast.Expr {
+		if p, ok := e.(*ast.ParenExpr); ok {
+			return conjuncts(p.X)
+		}
+		if be, ok := e.(*ast.BinaryExpr); ok && be.Op == token.LAND {
+			return append(conjuncts(be.X), conjuncts(be.Y)...)
+		}
+		return []ast.Expr{e}
+	}
+	notInRoster := func(e ast.Expr) bool {
+		be, ok := e.(*ast.BinaryExpr)
+		if !ok || be.Op != token.EQL {
+			return false
+		}
+		id, ok := be.Y.(*ast.Ident)
+		if !ok || id.Name != "nil" {
+			return false
+		}
+		c, ok := be.X.(*ast.CallExpr)
+		return ok && selName(c.Fun) == "GetTask"
+	}
+	for i, st := range cc.Body {
+		reached := false
+		if isStatusCall(st) {
+			reached = true
+		} else if ifs, ok := st.(*ast.IfStmt); ok && ifs.Init == nil && ifs.Else != nil {
+			if eb, ok := ifs.Else.(*ast.BlockStmt); ok {
+				inElse := false
+				for _, b := range eb.List {
+					inElse = inElse || isStatusCall(b)
+				}
+				guard := false
+				for _, c := range conjuncts(ifs.Cond) {
+					guard = guard || notInRoster(c)
+				}
+				reached = inElse && guard
+			}
+		}
+		if !reached {
+			continue
+		}
+		forRoster = true
+		for _, b := range cc.Body[:i] {
+			if !straightLine(b) && leaves(b) {
+				forRoster = false
+			}
+		}
+		break
+	}
+	return
+}
+
 type statusRow struct {
 	mesos, state string
 	locked       bool
@@ -94,6 +289,8 @@ type statusRow struct {
 
 type facts struct {
 	statusState        []statusRow // handleMessage: terminal Mesos state -> updateTaskState literal, guarded by IsLocked
+	statusReasonBlind  bool        // …and that switch is reached and taken whatever the update's reason is (see extract)
+	statusForRoster    bool        // updateTaskStatus is reached for every update about a task that is in the roster (see extract)
 	inactiveOn         []string    // updateTaskStatus: states that set INACTIVE
 	execState          string
 	execInactive       bool
@@ -139,6 +336,7 @@ func extract(repo string) (*facts, error) {
 		if !isStatus {
 			return true
 		}
+		ft.statusReasonBlind, ft.statusForRoster = statusClauseShape(cc)
 		for _, st := range cc.Body {
 			sw, ok := st.(*ast.SwitchStmt)
 			if !ok || selName(sw.Tag) != "mesosState" {
@@ -471,7 +669,10 @@ func genFacts(repo string) (string, error) {
 		}
 		fmt.Fprintf(&b, "(%q, %q, %v)", r.mesos, r.state, r.locked)
 	}
-	b.WriteString("]\n\n/-- go/ast, task.Manager.updateTaskStatus: Mesos states whose case sets status INACTIVE and calls UpdateStatus -/\ndef inactiveOn : List String := [")
+	b.WriteString("]\n\n")
+	fmt.Fprintf(&b, "/-- go/ast, handleMessage(TaskStatusMessage): the `switch mesosState` is a statement of the clause body, preceded by straight-line code only, and no condition on the way to an updateTaskState call mentions the update's reason -/\ndef statusStateReasonBlind : Bool := %v\n\n", ft.statusReasonBlind)
+	fmt.Fprintf(&b, "/-- go/ast, handleMessage(TaskStatusMessage): updateTaskStatus is called from the clause body itself or from the else branch of an `if … m.GetTask(…) == nil …`, and nothing before it can leave the clause: reached for every update about a task in the roster -/\ndef statusUpdateReachesRosterTasks : Bool := %v\n\n", ft.statusForRoster)
+	b.WriteString("/-- go/ast, task.Manager.updateTaskStatus: Mesos states whose case sets status INACTIVE and calls UpdateStatus -/\ndef inactiveOn : List String := [")
 	for i, r := range ft.inactiveOn {
 		if i > 0 {
 			b.WriteString(", ")
@@ -479,7 +680,9 @@ func genFacts(repo string) (string, error) {
 		fmt.Fprintf(&b, "%q", r)
 	}
 	b.WriteString("]\n\n")
-	w := func(doc, name, typ, val string) { fmt.Fprintf(&b, "/-- %s -/\ndef %s : %s := %s\n\n", doc, name, typ, val) }
+	w := func(doc, name, typ, val string) {
+		fmt.Fprintf(&b, "/-- %s -/\ndef %s : %s := %s\n\n", doc, name, typ, val)
+	}
 	bs := func(v bool) string { return fmt.Sprint(v) }
 	w("go/ast, HandleExecutorFailed: literal passed to updateTaskState", "execState", "String", strconv.Quote(ft.execState))
 	w("go/ast, HandleExecutorFailed: UpdateStatus(INACTIVE) on the parent role", "execInactive", "Bool", bs(ft.execInactive))
